@@ -243,7 +243,100 @@ pub fn judge(wk_prog: &Program, layout: &Layout, stack: bool) -> Result<Option<(
         }
     }
     let _ = ex.not_judged;
+    // the breakpoint table (full, non-minimal output): the third column is the statement's text
+    if let Some(v) = judge_table(&printed, &img, stack) {
+        return Ok(Some(v));
+    }
     Ok(None)
+}
+
+thread_local! {
+    /// rows of the breakpoint table compared by the last `judge` on this thread
+    static TABLE_ROWS: std::cell::Cell<u64> = const { std::cell::Cell::new(0) };
+}
+
+fn strip_ansi(s: &str) -> String {
+    let mut out = String::new();
+    let mut it = s.chars().peekable();
+    while let Some(c) = it.next() {
+        if c == '\x1b' && it.peek() == Some(&'[') {
+            for d in it.by_ref() {
+                if d.is_ascii_alphabetic() {
+                    break;
+                }
+            }
+        } else {
+            out.push(c);
+        }
+    }
+    out
+}
+
+/// `break add` at every statement address and one past the program, then `break list` with the
+/// full (table) output: every row's source column must show the text of the statement at that
+/// address (cut to the column width with an ellipsis when longer), and nothing for an address
+/// without statement.
+fn judge_table(printed: &Printed, img: &Image, stack: bool) -> Option<(String, String)> {
+    const SHOWN: usize = 26; // characters of a long text that must at least be recognisable
+    let orig = img.origin() as u32;
+    let n = img.words.len() as u32;
+    if n == 0 || n > 24 {
+        return None;
+    }
+    let mut script = String::new();
+    let mut addrs = Vec::new();
+    for a in orig..=(orig + n).min(0xFDFF) {
+        script.push_str(&format!("break add x{a:04x};"));
+        addrs.push(a);
+    }
+    script.push_str("break list;exit");
+    let mut env = Env::new(stack);
+    env.minimal = false;
+    let obs = match session(&printed.text, env, Some(&script), 1_000_000) {
+        Ok(SessionResult::Ran(o)) => o,
+        Ok(_) => return None,
+        Err(stopped) => return Some((format!("table/panic/{}", stopped.panic_site()), format!("session stopped with {}", stopped.short()))),
+    };
+    if let crate::session::Ended::Panic(p) = &obs.ended {
+        return Some((format!("table/panic-in-session/{}", p.split(':').take(2).collect::<Vec<_>>().join(":")), format!("`break list` session panicked: {p}")));
+    }
+    let plain = strip_ansi(&obs.dbg);
+    let mut rows: std::collections::BTreeMap<u32, String> = Default::default();
+    for line in plain.lines() {
+        let cells: Vec<&str> = line.split('│').collect();
+        if cells.len() == 5 && cells[1].trim().starts_with("0x") {
+            if let Ok(a) = u32::from_str_radix(cells[1].trim().trim_start_matches("0x"), 16) {
+                rows.insert(a, cells[3].strip_prefix(' ').unwrap_or(cells[3]).trim_end().to_string());
+            }
+        }
+    }
+    for a in addrs {
+        let want = if a < orig + n {
+            let item = img.item_of_word[(a - orig) as usize];
+            let (_, s, e) = printed.spans.iter().find(|(i, _, _)| *i == item).unwrap();
+            printed.text[*s..*e].to_string()
+        } else {
+            String::new()
+        };
+        if want.contains('\n') {
+            continue;
+        }
+        let Some(got) = rows.get(&a) else {
+            return Some(("table/row-missing".into(), format!("`break list` shows no row for the breakpoint at x{a:04x}")));
+        };
+        let ok = if want.chars().count() <= SHOWN {
+            *got == want
+        } else {
+            let shown: String = got.trim_end_matches('…').to_string();
+            shown.chars().count() >= 20 && want.starts_with(&shown)
+        };
+        TABLE_ROWS.with(|c| c.set(c.get() + 1));
+        if !ok {
+            let class = if got.is_empty() { "shows-nothing-for-statement" } else if want.is_empty() { "shows-text-for-address-without-statement" } else { "shows-wrong-text" };
+            return Some((format!("table/{class}"), format!("breakpoint table row x{a:04x} shows {got:?}, the statement's source text is {want:?}")));
+        }
+    }
+    None
 }
 
 /// Labels whose spelling the command language also reads as something else (radix-prefixed
@@ -320,6 +413,9 @@ pub fn run(ctx: &Ctx) -> i32 {
             Ok(None) => {
                 acc.nontrivial();
                 acc.gate("session-agreed");
+                if TABLE_ROWS.with(|c| c.replace(0)) > 0 {
+                    acc.gate("breakpoint-table-rows-compared");
+                }
                 let first = wk.prog.items.iter().find_map(|it| match it { Item::Stmt { stmt, .. } => Some(super::asmcommon::stmt_kind(stmt)), _ => None }).unwrap_or("");
                 acc.outcome(format!("agree/first={first}"));
                 if i % 997 == 0 {
@@ -360,9 +456,9 @@ pub fn run(ctx: &Ctx) -> i32 {
         ctx,
         acc,
         Level { category: "model_checking", bfs: None },
-        "bounded-exhaustive enumeration: every ordered pair of 17 statement shapes (operand-less, operand-ful, every directive, multi-word, multi-byte strings, stack extension) in 3 arrangements (first statement at byte 0 / labelled with .break between / .orig in the middle), 4 origins (default, x0200, x7FFE crossing x8000, xFD00), a layout product (case, separators incl. commas, label colon, label on own line, trailing and full-line comments with multi-byte characters, indentation, .end); one debugger session per program queries `assembly` at EVERY address from origin-1 to origin+n+1 and `goto label`, `label+1`, `label-1`, `label+3` for every label; compared with the printer's statement spans and the reference symbol table; plus 23 single-query sessions on labels whose spelling the command language can also read as an integer or register (b1, o7, B0, x, o, b, b2, xg, r8, _1, each bare and with +1) and on a label after the 65535th word. non-trivial = sessions in which every query agreed",
+        "bounded-exhaustive enumeration: every ordered pair of 17 statement shapes (operand-less, operand-ful, every directive, multi-word, multi-byte strings, stack extension) in 3 arrangements (first statement at byte 0 / labelled with .break between / .orig in the middle), 4 origins (default, x0200, x7FFE crossing x8000, xFD00), a layout product (case, separators incl. commas, label colon, label on own line, trailing and full-line comments with multi-byte characters, indentation, .end); one debugger session per program queries `assembly` at EVERY address from origin-1 to origin+n+1 and `goto label`, `label+1`, `label-1`, `label+3` for every label; compared with the printer's statement spans and the reference symbol table; a second session in full (non-minimal) output adds a breakpoint at every statement address and one past the program and reads the source column of the `break list` table (same oracle); plus 23 single-query sessions on labels whose spelling the command language can also read as an integer or register (b1, o7, B0, x, o, b, b2, xg, r8, _1, each bare and with +1) and on a label after the 65535th word. non-trivial = sessions in which every query agreed",
         true,
-        &["session-agreed"],
+        &["session-agreed", "breakpoint-table-rows-compared"],
         &["the printer records the exact byte span of each statement it emits", "minimal-mode debugger text is read through the tee hook"],
         json!({}),
     )
